@@ -15,5 +15,6 @@ for d in sorted(glob.glob(os.path.join(ROOT, "seeded", "*", "meta.json"))):
     e = extra.get(sid, {})
     files = ", ".join(m.get("touched_packages", []))
     ran = ", ".join("%s=%s" % (c, {1: "VIOLATION", 0: "quiet", 2: "inconclusive", -1: "?"}.get(v["exit"], v["exit"])) for c, v in m.get("steps", {}).get("checks", {}).items())
-    print("| %s | %s | %s (%s) | %s | %s | %s | %s | %s |" % (sid, m["property"], e.get("change", ""), files, e.get("needs", ""), "yes" if m.get("confirmed") else "no", ran,
-          ", ".join(m.get("caught_by", [])) or "-", e.get("history", "")))
+    esc = lambda x: str(x).replace("|", "\\|")
+    print("| %s | %s | %s (%s) | %s | %s | %s | %s | %s |" % (sid, m["property"], esc(e.get("change", "")), files, esc(e.get("needs", "")), "yes" if m.get("confirmed") else "no", ran,
+          ", ".join(m.get("caught_by", [])) or "-", esc(e.get("history", ""))))
